@@ -621,9 +621,6 @@ impl Runtime {
         let (from, to) = self.stack.pop_2()?;
         let from = LineNumber::try_from(from)?;
         let to = LineNumber::try_from(to)?;
-        if from == Some(0) && to == Some(LineNumber::max_value()) {
-            return Err(error!(IllegalFunctionCall));
-        }
         if self.listing.remove_range(from..=to) {
             self.dirty = true;
             self.state = State::Stopped;
